@@ -1,0 +1,31 @@
+//go:build verif
+
+package md
+
+import "strings"
+
+// Add-only verification hooks for property C36 (Markdown formatter kernels).
+// Nothing here changes behaviour; the functions only expose unexported kernels
+// of fmt.go to the /verif harness.
+
+func VerifC36EscapeText(s string) string { return escapeText(s) }
+
+func VerifC36IsWordRune(r rune) bool { return isWord(r, 1) }
+
+func VerifC36FormatLinkTail(dest, title string) string { return formatLinkTail(dest, title) }
+
+func VerifC36CodeFences(info string, lines []string) (string, string) {
+	return codeFences(info, lines)
+}
+
+func VerifC36EscapeCodeFenceInfo(s string) string { return escapeCodeFenceInfo(s) }
+
+// VerifC36Reflow runs the real paragraph reflow on one text segment made of
+// the given words at the given width (no containers) and returns what it
+// wrote.
+func VerifC36Reflow(words []string, width int) string {
+	initRegexpsOnce.Do(initRegexps)
+	c := &FmtCodec{Width: width}
+	c.writeSegmentsParagraphReflow([]segment{{typ: segText, text: strings.Join(words, " ")}}, width)
+	return c.sb.String()
+}
